@@ -363,7 +363,32 @@ def sc_anmf(cfg):
     return scenario
 
 
-SCEN = dict(learner=sc_learner, learner_rt=sc_learner_roundtrip, stacking=sc_stacking, skbase=sc_skbase, cak=sc_cak, cak_clone=sc_cak_clone, anmf=sc_anmf)
+def sc_defaults(cfg):
+    """estimators that build default sub-estimators in __init__: every instance owns its own; a nested
+    set_params on one instance changes nothing on another (before or after it was built)"""
+    pe = loader.load("mlmodel.piecewise_estimator")
+    cak = loader.load("mlmodel.classification_kmeans")
+
+    def scenario(C):
+        depth = 2 + C.choice("depth", 3)
+        for cls, key, val in ((pe.PiecewiseRegressor, "binner__max_depth", depth), (pe.PiecewiseClassifier, "binner__max_depth", depth), (cak.ClassifierAfterKMeans, "c_n_clusters", depth + 1)):
+            a, b = cls(), cls()
+            before = b.get_params(deep=True)
+            pa = a.get_params(deep=True)
+            subs_a = [v for v in pa.values() if hasattr(v, "get_params")] + [getattr(a, n) for n in ("estimator", "clus", "binner") if hasattr(a, n)]
+            subs_b = [v for v in before.values() if hasattr(v, "get_params")] + [getattr(b, n) for n in ("estimator", "clus", "binner") if hasattr(b, n)]
+            C.true(not any(x is y for x in subs_a for y in subs_b), "defaults/instances-do-not-share-their-default-sub-estimators", detail=cls.__name__)
+            a.set_params(**{key: val})
+            C.eq(a.get_params(deep=True)[key], val, "defaults/set_params-changes-the-given-key", detail=cls.__name__)
+            after = b.get_params(deep=True)
+            C.true(all(after[k] == before[k] or after[k] is before[k] for k in before if not hasattr(before[k], "get_params")), "defaults/set_params-on-one-instance-leaves-the-others-unchanged", detail=cls.__name__)
+            c = cls()
+            C.true(c.get_params(deep=True)[key] == before[key], "defaults/a-later-instance-has-the-documented-defaults", detail=(cls.__name__, key))
+
+    return scenario
+
+
+SCEN = dict(defaults=sc_defaults, learner=sc_learner, learner_rt=sc_learner_roundtrip, stacking=sc_stacking, skbase=sc_skbase, cak=sc_cak, cak_clone=sc_cak_clone, anmf=sc_anmf)
 
 
 def _sig(cfg):
@@ -410,6 +435,7 @@ def configs(tier):
             for m in (0, 1) if wrap else (3,):
                 out.append(dict(kind="stacking", N=N, wrap=wrap, method=m))
     out.append(dict(kind="skbase"))
+    out.append(dict(kind="defaults"))
     out.append(dict(kind="cak"))
     for est in (0, 1):
         out.append(dict(kind="cak_clone", estimator=est))
